@@ -78,6 +78,12 @@ def run_case(doc_text, ops, mode, collect=None):
                     fails.append((f"duplicate-definition|{op}:{cls}|{shape}", {"names": dups, "doc": cur[:400], "op": [op, path, value], "out": res_u[:400]}))
                     break
             continue
+        said_before = None
+        if mode == "same-object" and src is not None:
+            try:
+                said_before = src.rebuild()
+            except Exception:  # noqa: BLE001
+                said_before = None
         status, res, src2 = E.run_op(src if mode == "same-object" else cur, op, path, value)
         info["steps"] += 1
         info["classes"].append(f"{op}:{cls}:{'ok' if pred == 'ok' else 'refuse-' + pred.reason}")
@@ -92,7 +98,7 @@ def run_case(doc_text, ops, mode, collect=None):
                     still = src.rebuild()
                 except Exception as e:  # noqa: BLE001
                     still = f"<rebuild raises {type(e).__name__}>"
-                if still.rstrip("\n") != cur.rstrip("\n"):
+                if still.rstrip("\n") != (said_before if said_before is not None else cur).rstrip("\n"):
                     fails.append((f"document-changed-by-refused-edit|{op}:{cls}|{shape}", {"doc": cur[:400], "after": still[:400], "op": [op, path, value]}))
                     break
             if pred == "ok":
